@@ -166,9 +166,11 @@ function mkc(k, mode, arg)
   end})
 end
 function upto(n) return function(_, i) if i < n then return i + 1 end end end
+MT = setmetatable({}, {__newindex = function() error("m901", 2) end, __index = function() error("m902", 2) end, __add = function() error({id = 903}) end, __call = function() error("m904", 2) end, __unm = function() error("m905") end, __concat = function() error(nil) end})
 `
 
-const simPreludeLines = 12
+const simPreludeLines = 13
+const simMTLine = 13        // line of the metamethods of MT in the prelude
 const simCloseRaiseLine = 6 // line of error("ce"..k) in the prelude
 
 type renderer struct {
@@ -344,6 +346,20 @@ func (r *renderer) stmt(s *stmt) {
 			s.line = r.ln(`G9 = 1 // 0`)
 		case 9:
 			s.line = r.ln(`G9 = 2^53 | 1.5`)
+		case 11:
+			s.line = r.ln(`MT.x = 1`)
+		case 12:
+			s.line = r.ln(`G9 = MT.k5`)
+		case 13:
+			s.line = r.ln(`G9 = "10" + MT`)
+		case 14:
+			s.line = r.ln(`G9 = MT + 1`)
+		case 15:
+			s.line = r.ln(`MT(7)`)
+		case 16:
+			s.line = r.ln(`G9 = -MT`)
+		case 17:
+			s.line = r.ln(`G9 = MT .. "x"`)
 		default:
 			s.line = r.ln(`G9 = ("x").y.z`)
 		}
